@@ -485,7 +485,7 @@ def body(ctx):
 
 def plan(tier):
     if tier == "quick":
-        return [{"n": 250, "depth": 2} for _ in range(16)]
+        return [{"n": 150, "depth": 2} for _ in range(16)]
     return [{"n": 3000, "depth": 2 if i % 2 else 3} for i in range(16)]
 
 
